@@ -633,7 +633,12 @@ func main() {
 	meta := flag.String("meta", "", "metadata json output")
 	pb := flag.Int("probebase", 0, "first probe id")
 	noProbes := flag.Bool("noprobes", false, "do not insert block probes")
+	hook := flag.String("hookmethods", "", "hook mode: only insert simYield(site) before each top-level statement of the methods named here (comma separated); no other rewrite, no import of the simulator")
 	flag.Parse()
+	if *hook != "" {
+		hookMode(*src, *dst, strings.Split(*hook, ","))
+		return
+	}
 	probeBase = *pb
 	probeOn = !*noProbes
 
@@ -745,4 +750,71 @@ func main() {
 func fatal(err error) {
 	fmt.Fprintln(os.Stderr, "verif-instr:", err)
 	os.Exit(2)
+}
+
+// hookMode serves packages of other modules (protocol/model) that cannot import the simulator: the methods
+// named get a call to the package-level hook simYield before each of their top-level statements, and a file
+// declaring the hook is added. Only files that contain such a method are written.
+func hookMode(src, dst string, methods []string) {
+	want := map[string]bool{}
+	for _, m := range methods {
+		want[strings.TrimSpace(m)] = true
+	}
+	ents, err := os.ReadDir(src)
+	if err != nil {
+		fatal(err)
+	}
+	if err := os.MkdirAll(dst, 0o755); err != nil {
+		fatal(err)
+	}
+	pkg := ""
+	n := 0
+	for _, e := range ents {
+		if !strings.HasSuffix(e.Name(), ".go") || strings.HasSuffix(e.Name(), "_test.go") {
+			continue
+		}
+		f, err := parser.ParseFile(fset, filepath.Join(src, e.Name()), nil, parser.ParseComments)
+		if err != nil {
+			fatal(err)
+		}
+		pkg = f.Name.Name
+		changed := false
+		for _, d := range f.Decls {
+			fd, ok := d.(*ast.FuncDecl)
+			if !ok || fd.Body == nil || fd.Recv == nil || !want[fd.Name.Name] {
+				continue
+			}
+			var out []ast.Stmt
+			for _, st := range fd.Body.List {
+				p := fset.Position(st.Pos())
+				site := fmt.Sprintf("%s:%d:%s", filepath.Base(p.Filename), p.Line, fd.Name.Name)
+				out = append(out, &ast.ExprStmt{X: &ast.CallExpr{Fun: ast.NewIdent("simYield"), Args: []ast.Expr{&ast.BasicLit{Kind: token.STRING, Value: strconv.Quote(site)}}}}, st)
+				n++
+			}
+			fd.Body.List = out
+			changed = true
+		}
+		if !changed {
+			continue
+		}
+		var keep []*ast.CommentGroup
+		for _, cg := range f.Comments {
+			if cg.End() < f.Package {
+				keep = append(keep, cg)
+			}
+		}
+		f.Comments = keep
+		var buf bytes.Buffer
+		if err := format.Node(&buf, fset, f); err != nil {
+			fatal(err)
+		}
+		if err := os.WriteFile(filepath.Join(dst, e.Name()), buf.Bytes(), 0o644); err != nil {
+			fatal(err)
+		}
+	}
+	hookSrc := "package " + pkg + "\n\n// SimYield is set by the deterministic simulator (build overlay only; not part of the repository).\nvar SimYield func(site string)\n\nfunc simYield(site string) {\n\tif SimYield != nil {\n\t\tSimYield(site)\n\t}\n}\n"
+	if err := os.WriteFile(filepath.Join(dst, "zz_verif_simyield.go"), []byte(hookSrc), 0o644); err != nil {
+		fatal(err)
+	}
+	fmt.Printf("instr %s (hook mode): %d yield sites\n", pkg, n)
 }
